@@ -122,7 +122,15 @@ func (a *Application) getProviderEndpoints(ctx context.Context, providerType str
 	providerProfile := a.createProviderProfile(providerType)
 	providerProfile.Path = pr.targetPath
 
-	providerEndpoints := a.filterEndpointsByProfile(endpoints, providerProfile, pr.requestLogger)
+	// A provider-scoped route must stay inside its provider: unlike the generic proxy route
+	// there is no falling back to "all endpoints" when no endpoint of the provider's kind is
+	// healthy, otherwise /olla/vllm/... would be answered by, say, an Ollama backend.
+	providerEndpoints := make([]*domain.Endpoint, 0, len(endpoints))
+	for _, endpoint := range endpoints {
+		if providerProfile.IsCompatibleWith(NormaliseProviderType(endpoint.Type)) {
+			providerEndpoints = append(providerEndpoints, endpoint)
+		}
+	}
 
 	// If the request has specific requirements (e.g., needs vision support),
 	// apply those filters on top of the provider constraint
